@@ -54,6 +54,13 @@ def selfcheck(pid, mod, repo, chk):
             c2 = Check(pid, "quick")
             try:
                 mod.run(Repo(d), c2)
+                if v["expect"] == [] and v["name"].startswith("refactor:"):
+                    # a behaviour-preserving rewrite must not make an obligation of the pinned tree disappear either (the rule went blind)
+                    from .report import load_inventory
+                    have = {o.key for o in c2.obligations}
+                    gone = [k for k in load_inventory().get(pid, []) if k not in have]
+                    if gone:
+                        return "error", f"{len(gone)} obligation(s) no longer produced: {gone[:3]}"
                 return "new", sorted({o.key for o in c2.obligations if not o.ok} - base - known)
             except AnalysisError as e:
                 return "error", str(e)
